@@ -75,4 +75,10 @@ CHECKS = {
   "note": "Partial: OS delivery of signals/EOF/exit codes is trusted; real processes cannot be scheduled, each case is one real run with a watchdog. No axioms.",
   "design_ref": "DESIGN.md section 5 C12",
  },
+ "C16": {
+  "technique": "Coq corollaries of the FifoStream theorems (all schedules => every completion order in either flavour) + differential correspondence of six sync/async variants with a sequential reference evaluated in Coq",
+  "text": "Theorems: any two executions of the fifo machine agree on their common output prefix; two executions that complete deliver identical outputs (values, exception objects, order, pairing); an element rejected by the preprocessor yields its own exception; the sequential reference delivers the in-order outcomes. Cooperative (asyncio) executions are a family of schedules of the same machine, so the statements cover every completion order of both flavours. Tie: fifo_stream, Parmapper, ParmapperAsync, async_fifo_stream, AsyncParmapperAsync, AsyncParmapper (and sampled Server vs AsyncServer stream/call) are run on identical tables with per-call durations forcing many completion orders; all must agree with each other and with the Coq-evaluated reference. The async feeder defect found by this check on the pinned tree was repaired (fix: commit a6bddac).",
+  "note": "Partial: the async code is tied to the model by outputs only (its event loop is not scheduled); completion orders are forced by real sleeps, not enumerated; AsyncServer is sampled. Trusted: Coq kernel + vm_compute, the FifoStream model, asyncio and ThreadPoolExecutor. No axioms.",
+  "design_ref": "DESIGN.md section 5 C16",
+ },
 }
